@@ -120,8 +120,10 @@
 
 #![warn(bare_trait_objects)]
 
+#[cfg(not(desync_verif))]
 #[macro_use]
 extern crate lazy_static;
+#[cfg(desync_verif)] #[macro_use] extern crate vsched;
 extern crate futures;
 
 #[cfg(not(target_arch = "wasm32"))]
